@@ -1,4 +1,9 @@
-"""Per-property configuration of bin/check: trusted base, assumptions, notes."""
+"""Per-property configuration of bin/check: one JSON file per property under /verif/checks/
+(keys: technique, level_text, level_note, trusted, assumptions, explanation,
+optional timeout_quick / timeout_thorough in seconds)."""
+import glob, json, os
+
+ROOT = os.path.dirname(os.path.dirname(os.path.abspath(__file__)))
 
 # axioms a Props file may depend on (standard-library axioms only; each named in DESIGN.md section 7)
 ALLOWED_AXIOMS = []
@@ -10,17 +15,9 @@ TRUSTED_COMMON = [
     "go.sia.tech/core v0.21.7 (consensus rules, Merkle accumulator, RHP4 arithmetic, crypto) is an oracle, not the subject",
 ]
 
+# reasons for properties that have no check (yet)
 NOT_YET = {}
 
-PROPS = {
-    "C17": {
-        "technique": "Coq refinement proof (simulation relation, induction over operation lists) + differential correspondence of the model against the four real backends",
-        "level_text": "Machine-checked refinement: for every operation sequence the MemDB model returns exactly the results of the two-map specification (theorem C17_memdb_refines_spec, unbounded), plus the read-your-writes / durability / cancel laws of the specification. The models of MemDB, CacheDB(MemDB), CacheDB(Bolt) and the specification (=Bolt) are validated against the real backends on exhaustive short and random long sequences evaluated inside Coq; an independent reference-map monitor supplies the replay.",
-        "level_note": "Trusted: Coq kernel + vm_compute; the hand transcription of chain/db.go (tied by the correspondence run only on generated sequences over a 2x2x2 alphabet); bbolt; the CacheDB refinement is validated by correspondence and monitor, its proof covers MemDB.",
-        "trusted": ["bbolt as a transactional key-value store (BoltChainDB is the specification by definition and is compared by the harness)"],
-        "assumptions": ["values are non-empty byte strings (nil vs empty is backend specific; the chain store never writes empty values)",
-                        "bucket handles are re-fetched by name for every operation (a bbolt handle dies with its transaction)",
-                        "iteration order is not an observable (Go map order); iteration is compared as a duplicate-free set of pairs"],
-        "explanation": "refinement theorems over all operation sequences for MemDB and CacheDB(spec backend) models; the models are validated against the four real backends on exhaustive short and random long sequences",
-    },
-}
+PROPS = {}
+for f in sorted(glob.glob(os.path.join(ROOT, "checks", "C*.json"))):
+    PROPS[os.path.basename(f)[:-5]] = json.load(open(f))
